@@ -1719,7 +1719,7 @@ class _Serializer:
         self._write(bytes_)
 
     def _save_integral(self, i: int, short_op: bytes, long_op: bytes) -> None:
-        if i <= FOUR_BYTE_INT_MAX:
+        if -FOUR_BYTE_INT_MAX - 1 <= i <= FOUR_BYTE_INT_MAX:
             self._write(short_op)
             self._write_int4(i)
         else:
